@@ -192,7 +192,12 @@ def make_stale(rng, tier):
         elif r < 0.92:
             ops.append({'k': 'touch', 'f': rng.randrange(len(cfg['files'])), 'dt': rng.choice([0.0, 1.0, 2.5])})
         elif r < 0.95:
-            ops.append({'k': 'rmcache', 'c': rng.randrange(cfg['cdirs'])})
+            if rng.random() < 0.5:
+                ops.append({'k': 'rmcache', 'c': rng.randrange(cfg['cdirs'])})
+            else:
+                # the same, entry by entry, by one of the processes (clear_cache / rm -rf)
+                ops.append({'k': 'clearcache', 'p': rng.randrange(cfg['nproc']), 'c': rng.randrange(cfg['cdirs']),
+                            'mem': rng.random() < 0.7, 't': []})
         elif r < 0.97:
             ops.append({'k': 'rmfile', 'f': rng.randrange(len(cfg['files']))})
         else:
@@ -254,7 +259,10 @@ def make_torn(rng, tier):
             ops.append({'k': 'chmod', 'c': c, 'which': rng.choice(['root', 'root', 'ver']),
                         'mode': rng.choice([0o555, 0o555, 0o500, 0o755]), 'create': rng.random() < 0.5})
         elif r < 0.87 and 'rmcache' in enabled:
-            ops.append({'k': rng.choice(['rmcache', 'rmver']), 'c': c})
+            if rng.random() < 0.6:
+                ops.append({'k': rng.choice(['rmcache', 'rmver']), 'c': c})
+            else:
+                ops.append({'k': 'clearcache', 'p': rng.randrange(cfg['nproc']), 'c': c, 'mem': rng.random() < 0.7, 't': []})
         elif r < 0.92 and 'age' in enabled:
             ops.append({'k': 'age', 'c': c, 'sel': rng.choice([None, rng.randrange(8)]),
                         'days': rng.choice([1, 29, 29.99, 30.01, 31, 400]),
